@@ -781,7 +781,8 @@ fn inj_msg(tag: &str, k: usize) -> String {
 fn main() {
     let args = Args::parse("C18");
     let n = args.budget(240, 30000);
-    let chunks = ((long_axis_chunks() as f64 * args.scale).ceil() as u64).clamp(1, long_axis_chunks());
+    // (not in the heavily scaled-down interpreter legs: the sweep is about validation, not memory safety)
+    let chunks = if args.scale < 0.05 { 0 } else { ((long_axis_chunks() as f64 * args.scale).ceil() as u64).clamp(1, long_axis_chunks()) };
     let ev = run_sharded(&args, n + chunks, |case, ev, _log| {
         if case >= n {
             // spread the covered chunks over the whole range when the leg is scaled down
